@@ -187,7 +187,13 @@ func runC03(r *core.Run) {
 			var sql, sig string
 			ev := map[string]interface{}{"L": cellsJSON(t.Rows), "R": cellsJSON(u.Rows), "wl": 4, "wr": 4}
 			eq := cexpr{"k": "cmp", "op": "=", "l": cexpr{"k": "col", "i": col}, "r": cexpr{"k": "col", "i": 4 + col}}
-			switch rng.Intn(3) {
+			switch rng.Intn(4) {
+			case 3:
+				// NATURAL LEFT JOIN over a lateral sub-query that shares no column name with t: every row of t with each of its
+				// rows of the sub-query, or padded with NULLs where there is none
+				sql = "SELECT * FROM t NATURAL LEFT JOIN LATERAL (SELECT u.id AS uid, u.b AS ub FROM u WHERE u." + cn + " = t." + cn + ") s"
+				sig = "select:lateral:natural-left"
+				ev["kind"], ev["jk"], ev["cond"], ev["where"], ev["proj"], ev["ordered"] = "join", "left", eq, cexpr{"k": "true"}, []int{1, 2, 3, 4, 5, 7}, false
 			case 0:
 				sql = "SELECT * FROM t CROSS JOIN LATERAL (SELECT * FROM u WHERE u." + cn + " = t." + cn + ") s"
 				sig = "select:lateral:cross"
